@@ -1,10 +1,14 @@
 pub mod epoch;
+pub mod swapmath;
+pub mod mintmath;
 
 use crate::Out;
 
 pub fn run(stream: &str, seed: u64, cases: u64, replay: Option<&str>, o: &mut Out) -> bool {
     match stream {
         "epoch" => epoch::run(seed, cases, replay, o),
+        "swapmath" => swapmath::run(seed, cases, replay, o),
+        "mintmath" => mintmath::run(seed, cases, replay, o),
         _ => return false,
     }
     true
